@@ -50,7 +50,11 @@ type c07Op struct {
 	Record bool  `json:"record,omitempty"`
 	Hold   bool  `json:"hold,omitempty"` // keep the Authentication for a later record-held
 	ReqCur bool  `json:"require_current,omitempty"`
-	During []int `json:"reload_during,omitempty"` // SetUsers(these) from the afterAttempt seam
+	During []int `json:"reload_during,omitempty"` // SetUsers(these) from the afterAttempt seam of the FIRST attempt
+	// Seams[k] = the user sets given to SetUsers (in order) from the afterAttempt seam of attempt k: a
+	// reload during the retry attempt is Seams[1], two reloads inside one attempt are two entries of
+	// Seams[k]. (During is Seams[0] = [During]; kept for recorded cases.)
+	Seams [][][]int `json:"seams,omitempty"`
 	// reload
 	Users []int `json:"users,omitempty"`
 	// cache-record
@@ -232,6 +236,45 @@ type c07Run struct {
 	hist  map[int][][2]uint32 // model key → (user id, tick) recorded in the current generation
 	genNo int
 	rnd   func(n int) []byte
+	// identity of every generation published in this case, in order (serveruser.VerifGeneration), and
+	// the harness's own view of each (indices into Creds, id = position + 1)
+	genTok  []any
+	genSets [][]int
+	credTok map[string]int
+}
+
+func (op c07Op) seams() [][][]int {
+	if len(op.Seams) > 0 {
+		return op.Seams
+	}
+	if len(op.During) > 0 {
+		return [][][]int{{op.During}}
+	}
+	return nil
+}
+
+// credToken gives equal credentials equal small numbers (the model's credential tokens)
+func (r *c07Run) credToken(k c07Cred) int {
+	if r.credTok == nil {
+		r.credTok = map[string]int{}
+	}
+	h := hex.EncodeToString(c07Credential(k))
+	if _, ok := r.credTok[h]; !ok {
+		r.credTok[h] = 1000 + len(r.credTok)
+	}
+	return r.credTok[h]
+}
+
+// genSpec is a generation in the drivers' notation: name:cred,… in id order (name token = index in Creds + 1)
+func (r *c07Run) genSpec(gen []int) string {
+	if len(gen) == 0 {
+		return "-"
+	}
+	parts := make([]string, len(gen))
+	for i, ci := range gen {
+		parts[i] = fmt.Sprintf("%d:%d", ci+1, r.credToken(r.k.Creds[ci]))
+	}
+	return strings.Join(parts, ",")
 }
 
 func (r *c07Run) keyOf(src serveruser.Source) (bucket uint32, key int, valid bool) {
@@ -251,6 +294,8 @@ func (r *c07Run) setUsers(idx []int) {
 	serveruser.VerifSetCacheTick(r.reg, func() uint32 { return r.tick })
 	r.gen = c07Generation(r.k.Creds, idx)
 	r.genNo++
+	r.genTok = append(r.genTok, serveruser.VerifGeneration(r.reg))
+	r.genSets = append(r.genSets, r.gen)
 	r.hist = map[int][][2]uint32{}
 	r.c.Model.Ask("srccache-new")
 	// tie: the code's generation is the harness's expectation (sorted by name, dense ids)
@@ -395,19 +440,31 @@ func (r *c07Run) discover(oi int, op c07Op) {
 	c.Hist("cached_ids", strconv.Itoa(strings.Count(cachedModel, ",")+map[bool]int{true: 0, false: 1}[cachedModel == "-"]))
 	mand := map[bool]int{false: 0, true: 1}[r.k.Mandatory]
 
-	// the reload seam
-	var seam func()
+	// the reload seam: discoverUser's own afterAttempt hook, fired on EVERY attempt
+	seams := op.seams()
 	fired := false
-	if len(op.During) > 0 {
-		seam = func() {
-			if !fired {
-				fired = true
-				r.setUsers(op.During)
-			}
+	startIdx := len(r.genTok) - 1
+	var seamSpecs []string // per attempt, the generations its seam published (driver notation)
+	seam := func(attempt int) {
+		if attempt >= len(seams) {
+			return
+		}
+		var specs []string
+		for _, set := range seams[attempt] {
+			fired = true
+			r.setUsers(set)
+			specs = append(specs, r.genSpec(r.gen))
+		}
+		for len(seamSpecs) < attempt {
+			seamSpecs = append(seamSpecs, "=")
+		}
+		if len(specs) == 0 {
+			seamSpecs = append(seamSpecs, "=")
+		} else {
+			seamSpecs = append(seamSpecs, strings.Join(specs, "+"))
 		}
 	}
-	var d serveruser.VerifDiscovery
-	var err error
+	var tr serveruser.VerifDiscoveryTrace
 	panicked := ""
 	func() {
 		defer func() {
@@ -415,18 +472,51 @@ func (r *c07Run) discover(oi int, op c07Op) {
 				panicked = fmt.Sprint(p)
 			}
 		}()
-		d, err = serveruser.VerifDiscover(r.reg, enc, src, op.ReqCur, seam)
+		tr = serveruser.VerifDiscoverTraced(r.reg, enc, src, op.ReqCur, seam)
 	}()
 	if panicked != "" {
 		c.Violate("C07/discover-panic", fmt.Sprintf("op %d: discovery panicked with cached ids %s: %s", oi, cachedModel, panicked), r.k)
 		return
 	}
+	d, err := tr.Result, tr.Err
+	if !tr.Intact {
+		// a key epoch rolled while the decryptors were traced: the attempt lists are incomplete
+		c.Res.Discarded++
+		return
+	}
+	cachedFirst := cachedModel
+	// the harness's own replay of the loop: which generation the returned outcome was computed on
 	judged := oldGen
-	if fired && op.ReqCur {
-		// the first attempt was discarded; the result comes from the new generation, cold cache
-		judged = r.gen
+	finalAttempt := 0
+	for k := 0; ; k++ {
+		finalAttempt = k
+		if len(judged) == 0 {
+			break // "no server user found": returned at once, no seam
+		}
+		reloaded := k < len(seams) && len(seams[k]) > 0
+		if op.ReqCur && reloaded {
+			judged = c07Generation(r.k.Creds, seams[k][len(seams[k])-1])
+			continue
+		}
+		break
+	}
+	if finalAttempt > 0 {
+		// earlier attempts were discarded; the outcome comes from a fresh generation, cold cache
 		hintIDs, authIDs = r.sets(judged, nonce, sealCred)
 		cachedModel = "-"
+	}
+	r.compareSchedule(oi, op, tr, startIdx, oldGen, nonce, sealCred, cachedFirst, seamSpecs, len(seams))
+	switch {
+	case len(seams) == 0:
+		c.Hist("reload_seam", "none")
+	default:
+		desc := fmt.Sprintf("rc=%v/attempts=%d", op.ReqCur, len(tr.Attempts))
+		for k, sm := range seams {
+			if len(sm) > 1 {
+				desc += fmt.Sprintf("/%d-reloads-in-seam-%d", len(sm), k)
+			}
+		}
+		c.Hist("reload_seam", desc)
 	}
 	m := c.Model.Ask("disc-try %d %s %s %d %s", len(judged), c07IDs(hintIDs), c07IDs(authIDs), mand, cachedModel)
 	c.Compared()
@@ -527,6 +617,78 @@ func (r *c07Run) discover(oi int, op c07Op) {
 	}
 }
 
+// compareSchedule compares discoverUser, attempt by attempt, with Mieru.Reload.run (driver op
+// reload-run): the outcome, the generation it is attributed to, and for EVERY attempt (also the
+// discarded ones and the rejecting one) the generation it ran on and the ORDERED ids of the users
+// whose decryptor ran.
+func (r *c07Run) compareSchedule(oi int, op c07Op, tr serveruser.VerifDiscoveryTrace, startIdx int, startGen []int, nonce, sealCred []byte, cachedFirst string, seamSpecs []string, nSeams int) {
+	c := r.c
+	key := "-"
+	if sealCred != nil {
+		key = strconv.Itoa(r.credToken(c07Cred{Hashed: hex.EncodeToString(sealCred)}))
+	}
+	var hinted []int
+	for ci, k := range r.k.Creds {
+		if k.Name != "" && bytes.Equal(c07Hint4(k.Name, nonce), nonce[20:]) {
+			hinted = append(hinted, ci+1)
+		}
+	}
+	var sched []string
+	for k := 0; k <= nSeams; k++ {
+		cached := "-"
+		if k == 0 {
+			cached = cachedFirst
+		}
+		sm := "="
+		if k < len(seamSpecs) {
+			sm = seamSpecs[k]
+		}
+		sched = append(sched, cached+"/"+sm)
+	}
+	m := c.Model.Ask("reload-run %d %d %s %s %s %s", map[bool]int{false: 0, true: 1}[op.ReqCur], map[bool]int{false: 0, true: 1}[r.k.Mandatory], key, c07IDs(hinted), r.genSpec(startGen), strings.Join(sched, " "))
+	c.Compared()
+	genIdx := func(tok any) int {
+		for i := len(r.genTok) - 1; i >= 0; i-- {
+			if r.genTok[i] == tok {
+				return i - startIdx
+			}
+		}
+		return -1000
+	}
+	got := []string{"ok"}
+	if tr.Err == nil {
+		name := 0
+		for ci, k := range r.k.Creds {
+			if k.Name == tr.Result.UserName {
+				name = ci + 1
+			}
+		}
+		got = append(got, fmt.Sprintf("ret:%d:%d", genIdx(tr.Generation), name))
+	} else {
+		// the generation of a rejection is not exposed by discoverUser: the model's is its last attempt's
+		gi := 0
+		if n := len(tr.Attempts); n > 0 {
+			gi = genIdx(tr.Attempts[n-1].Generation)
+		} else {
+			gi = len(r.genTok) - 1 - startIdx
+		}
+		got = append(got, fmt.Sprintf("ret:%d:none", gi))
+	}
+	for _, a := range tr.Attempts {
+		got = append(got, fmt.Sprintf("%d:%s", genIdx(a.Generation), c07IDs32(a.Tried)))
+	}
+	if g := strings.Join(got, " "); g != m {
+		c.Disagree("C07/corr/reload-schedule", fmt.Sprintf("op %d: discoverUser (requireCurrent=%v, seams %v) outcome and attempts [generation:tried ids…] %q, Mieru.Reload.run %q", oi, op.ReqCur, op.seams(), g, m), r.k)
+	}
+	// direct oracle: the outcome is attributed to a generation that was published at or after the
+	// start of the discovery; with requireCurrent it is the published one at the return
+	if tr.Err == nil {
+		if gi := genIdx(tr.Generation); gi < 0 {
+			c.Violate("C07/reload/generation-retired-before-start", fmt.Sprintf("op %d: the result is attributed to a generation that was retired before the discovery started", oi), r.k)
+		}
+	}
+}
+
 func (r *c07Run) run() {
 	c := r.c
 	r.reg = &serveruser.Registry{}
@@ -603,6 +765,14 @@ func c07RunCase(c *core.Ctx, k c07Case) {
 		if m != fmt.Sprintf("ok %d", way) {
 			c.Disagree("C07/corr/selectway", fmt.Sprintf("selectSourceUserCacheWay(%v, now=%d): model %s impl %d", k.Ticks, k.Now, m, way), k)
 		}
+		if c.Gen != nil {
+			// the definition REGENERATED from the current source (loops unrolled) against the real function
+			g := strings.Fields(c.Gen.Ask("c07-selectway %d %s", k.Now, strings.Join(args, " ")))
+			c.Compared()
+			if len(g) != 3 || g[0] != "ok" || g[1] != strconv.Itoa(way) {
+				c.Disagree("C07/corr/gen-selectway", fmt.Sprintf("selectSourceUserCacheWay(%v, now=%d): regenerated definition %v impl %d", k.Ticks, k.Now, g, way), k)
+			}
+		}
 	case "age":
 		for _, t := range k.Ticks {
 			a, e := serveruser.VerifAge(k.Now, uint32(t))
@@ -610,6 +780,13 @@ func c07RunCase(c *core.Ctx, k c07Case) {
 			c.Compared()
 			if m != fmt.Sprintf("ok %d %v", a, e) {
 				c.Disagree("C07/corr/age", fmt.Sprintf("age(now=%d, then=%d): model %s impl %d %v", k.Now, uint32(t), m, a, e), k)
+			}
+			if c.Gen != nil {
+				g := c.Gen.Ask("c07-age %d %d", k.Now, uint32(t))
+				c.Compared()
+				if g != fmt.Sprintf("ok %d %v", a, e) {
+					c.Disagree("C07/corr/gen-age", fmt.Sprintf("age(now=%d, then=%d): regenerated definition %s impl %d %v", k.Now, uint32(t), g, a, e), k)
+				}
 			}
 		}
 	default:
@@ -748,7 +925,39 @@ func c07GenHistory(c *core.Ctx, family string) c07Case {
 		default:
 			op.Hint = -1
 		}
-		switch c.Rand.Intn(25) {
+		randomSet := func(keep int) []int {
+			var next []int
+			for j := 0; j < nUsers; j++ {
+				if c.Rand.Intn(keep) != 0 {
+					next = append(next, j)
+				}
+			}
+			if len(next) == 0 {
+				next = []int{c.Rand.Intn(nUsers)}
+			}
+			return next
+		}
+		switch c.Rand.Intn(29) {
+		case 25: // a reload during the first attempt AND one during the retry attempt
+			a, b := randomSet(3), randomSet(3)
+			op.Seams = [][][]int{{a}, {b}}
+			cur = b
+			if !op.ReqCur {
+				cur = a // without requireCurrent there is no second attempt
+			}
+		case 26: // two reloads inside one attempt
+			a, b := randomSet(3), randomSet(4)
+			op.Seams = [][][]int{{a, b}}
+			cur = b
+		case 27: // a reload that publishes the same users again (a new generation all the same)
+			op.Seams = [][][]int{{append([]int(nil), cur...)}}
+		case 28: // three attempts
+			a, b, d := randomSet(3), randomSet(3), randomSet(2)
+			op.Seams = [][][]int{{a}, {b, d}, {}}
+			cur = d
+			if !op.ReqCur {
+				cur = a
+			}
 		case 0:
 			var next []int
 			for j := 0; j < nUsers; j++ {
@@ -788,6 +997,92 @@ func c07GenHistory(c *core.Ctx, family string) c07Case {
 		k.Ops = append(k.Ops, op)
 	}
 	return k
+}
+
+// c07BoundaryHistories: deterministic histories run on EVERY run before the random stream (guide item
+// 4): every boundary the property's quantifier and the cache geometry name.
+func c07BoundaryHistories(c *core.Ctx) []c07Case {
+	var out []c07Case
+	disc := func(enc, hint, src int, dt uint32, record bool) c07Op {
+		return c07Op{Kind: "discover", EncAs: enc, Hint: hint, Src: src, Dt: dt, Record: record}
+	}
+	lookup := func(src int, dt uint32) c07Op { return c07Op{Kind: "cache-lookup", Src: src, Dt: dt} }
+	users := func(n int) []int {
+		u := make([]int, n)
+		for i := range u {
+			u[i] = i
+		}
+		return u
+	}
+	// (1) hint collisions: two users (distinct credentials) whose names collide on the 4-byte hint; the
+	// OTHER one is cached for the source; both hint modes; same and another source
+	for _, mand := range []bool{false, true} {
+		creds, prefix := c07GenCreds(c, 4, 0, true)
+		if prefix == "" {
+			c.Note("C07: no colliding name pair found for the boundary case")
+			continue
+		}
+		out = append(out, c07Case{Kind: "history", Creds: creds, Users: users(4), Mandatory: mand, Tick0: 1000, Prefix: prefix, Ops: []c07Op{
+			disc(0, -3, 0, 1, true), lookup(0, 0), disc(1, -3, 0, 1, true), disc(0, -3, 0, 1, true), disc(1, -3, 0, 1, false),
+			disc(1, -3, 10, 1, true), disc(0, -3, 10, 1, false), disc(2, -3, 0, 1, false), disc(1, -3, 0, 601, false),
+		}})
+		c.Hist("boundary_history", fmt.Sprintf("hint-collision/mandatory=%v", mand))
+	}
+	// (2) users per source 0, 1, 15, 16, 17 (the 16-slot entry and the 16-id attempted array): user i
+	// authenticates from ONE source; after 0, 1, 15, 16, 17 users a lookup and an unhinted segment of the
+	// FIRST user (cached fallback / evicted → registry fallback), hints optional and mandatory
+	for _, mand := range []bool{false, true} {
+		creds, _ := c07GenCreds(c, 18, 0, false)
+		k := c07Case{Kind: "history", Creds: creds, Users: users(18), Mandatory: mand, Tick0: 50}
+		for i := 0; i <= 17; i++ {
+			switch i {
+			case 0, 1, 15, 16, 17:
+				k.Ops = append(k.Ops, lookup(0, 0), disc(0, -1, 0, 0, false), disc(0, 0, 0, 0, false), disc(17, 17, 0, 0, false))
+				c.Hist("boundary_users_per_source", strconv.Itoa(i))
+			}
+			if i < 17 {
+				k.Ops = append(k.Ops, disc(i, i, 0, 1, true))
+			}
+		}
+		out = append(out, k)
+	}
+	// (3) 3, 4, 5 source keys in one bucket (4 ways): way replacement
+	{
+		creds, _ := c07GenCreds(c, 3, 0, false)
+		k := c07Case{Kind: "history", Creds: creds, Users: users(3), Tick0: 7}
+		for key := 0; key < 5; key++ {
+			k.Ops = append(k.Ops, disc(key%3, key%3, key, 2, true))
+			if key >= 2 {
+				for q := 0; q <= key; q++ {
+					k.Ops = append(k.Ops, lookup(q, 0))
+				}
+				c.Hist("boundary_keys_in_bucket", strconv.Itoa(key+1))
+			}
+		}
+		out = append(out, k)
+	}
+	// (4) dt ∈ {0, 1, 599, 600, 601, 1200} after a record, starting just below the 32-bit tick wrap
+	for _, dt := range []uint32{0, 1, 599, 600, 601, 1200} {
+		for _, t0 := range []uint32{0, 4294967295 - 300, 4294967295} {
+			creds, _ := c07GenCreds(c, 2, 0, false)
+			out = append(out, c07Case{Kind: "history", Creds: creds, Users: users(2), Tick0: t0, Ops: []c07Op{
+				disc(0, 0, 0, 0, true), disc(1, 1, 0, 1, true), lookup(0, dt), disc(0, -1, 0, 0, false), disc(1, -1, 0, 0, true), lookup(0, 599), lookup(0, 1),
+			}})
+		}
+		c.Hist("boundary_dt", strconv.FormatUint(uint64(dt), 10))
+	}
+	// (5) cached ids 0 / n / n+1 / duplicates, cached list lengths 0, 1, 15, 16 injected through the hook
+	for _, n := range []int{0, 1, 15, 16} {
+		creds, _ := c07GenCreds(c, 3, 0, false)
+		k := c07Case{Kind: "history", Creds: creds, Users: users(3), Tick0: 99}
+		for j := 0; j < n; j++ {
+			k.Ops = append(k.Ops, c07Op{Kind: "cache-record", Src: 0, ID: uint32([]int{3, 4, 0, 2, 2, 9, 1}[j%7] + 10*(j/7)), Dt: 0})
+		}
+		k.Ops = append(k.Ops, lookup(0, 0), disc(2, -1, 0, 0, false), disc(2, 2, 0, 0, false), disc(0, 1, 0, 0, false), disc(-1, -1, 0, 0, false))
+		out = append(out, k)
+		c.Hist("boundary_cached_len", strconv.Itoa(n))
+	}
+	return out
 }
 
 // c07Concurrent: SetUsers racing with Discover (thorough tier). Only schedule-independent facts
@@ -899,6 +1194,12 @@ func init() {
 			for _, k := range c07LoadCorpus(c) {
 				c07RunCase(c, k)
 			}
+			for _, k := range c07BoundaryHistories(c) {
+				c07RunCase(c, k)
+				if c07Violated(c) {
+					break
+				}
+			}
 			fams := []string{"distinct", "distinct", "shared", "collide", "many", "distinct", "shared"}
 			for i := 0; i < c.N(60, 900); i++ {
 				k := c07GenHistory(c, fams[i%len(fams)])
@@ -910,6 +1211,32 @@ func init() {
 				if c07Violated(c) {
 					break
 				}
+			}
+			// deterministic boundaries on every run: every nil pattern; expiry edge 599/600/601 in each way;
+			// ties and strict maxima of the age in each position; now at 0, at the 32-bit wrap
+			for _, now := range []uint32{0, 1, 599, 600, 601, 1200, 4294967295, 4294967294, 2147483648} {
+				for mask := 0; mask < 16; mask++ {
+					k := c07Case{Kind: "selectway", Now: now}
+					for j := 0; j < 4; j++ {
+						if mask&(1<<j) != 0 {
+							k.Ticks = append(k.Ticks, -1)
+						} else {
+							k.Ticks = append(k.Ticks, int64(now-uint32(10*j)))
+						}
+					}
+					c07RunCase(c, k)
+				}
+				for pos := 0; pos < 4; pos++ {
+					for _, d := range []uint32{0, 1, 598, 599, 600, 601, 4294967295} {
+						for _, base := range []uint32{5, 300, 599} {
+							k := c07Case{Kind: "selectway", Now: now, Ticks: []int64{int64(now - base), int64(now - base), int64(now - base), int64(now - base)}}
+							k.Ticks[pos] = int64(now - d)
+							c07RunCase(c, k)
+						}
+					}
+				}
+				c07RunCase(c, c07Case{Kind: "age", Now: now, Ticks: []int64{int64(now), int64(now - 1), int64(now - 599), int64(now - 600), int64(now - 601), int64(now - 1200), int64(now + 1), 0, 1, 4294967295}})
+				c.Hist("boundary_now", strconv.FormatUint(uint64(now), 10))
 			}
 			for i := 0; i < c.N(300, 5000); i++ {
 				k := c07Case{Kind: "selectway", Now: c.Rand.Uint32()}
